@@ -210,3 +210,52 @@ func zz20WaitReaders(wg *sync.WaitGroup, stop chan struct{}) {
 		close(stop)
 	}()
 }
+
+// C20.a: concurrent readers always obtain some complete committed tip. A chain of two blocks; the
+// consensus goroutine appends a third block and removes it again (real Chain.AddBlock / RemoveBlock
+// over the database model and the block cache) while a reader (RPC / generator) asks for the last
+// block and for the header at the tip's height. All interleavings within the scheduling budget, with
+// the race monitor. Asserted: no data race, nobody blocks; the tip the reader obtains is block 2 or
+// block 3 — complete (height, ID and previous ID of that very block) — and a header the reader then
+// fetches at that height is either that block's header or (if the block was removed meanwhile) reported
+// missing; never a mixture.
+//
+//zz:opt loop=80 sched=2 join=1 race=1 racereport=1 schedule=1 blockfree=0 lockdiscipline=off
+//zz:thorough sched=3 budget=1800s
+func zzH_C20_tip_reader_vs_writer(t *zzT) {
+	database, err := db.NewInMemoryDB()
+	if err != nil {
+		t.Fail("db")
+	}
+	b1 := zz20Block(0, bytes.Repeat([]byte{0}, 32), 0)
+	b2 := zz20Block(1, b1.Header.ID, 1)
+	b3 := zz20Block(2, b2.Header.ID, 1)
+	chain := NewChain(&ChainConfig{ChainID: []byte{0, 0, 0, 1}, MaxTransactionsLength: 1000, MaxBlockCache: 4, KeepEventsForHeights: -1})
+	chain.Init(b1, database)
+	for _, b := range []*Block{b1, b2} {
+		if err := chain.AddBlock(database.NewBatch(), b, nil, 0, false); err != nil {
+			t.Fail("setup: AddBlock")
+		}
+	}
+	var wg sync.WaitGroup
+	wg.Add(1)
+	go func() {
+		defer wg.Done()
+		if chain.AddBlock(database.NewBatch(), b3, nil, 0, false) != nil {
+			return
+		}
+		_ = chain.RemoveBlock(database.NewBatch(), false)
+	}()
+	tip := chain.LastBlock()
+	is2 := tip != nil && tip.Header.Height == 1 && bytes.Equal(tip.Header.ID, b2.Header.ID) && bytes.Equal(tip.Header.PreviousBlockID, b1.Header.ID)
+	is3 := tip != nil && tip.Header.Height == 2 && bytes.Equal(tip.Header.ID, b3.Header.ID) && bytes.Equal(tip.Header.PreviousBlockID, b2.Header.ID)
+	t.Assert(is2 || is3, "a concurrent reader obtains a complete committed tip (block 2 or block 3)")
+	if tip != nil {
+		h, herr := chain.DataAccess().GetBlockHeaderByHeight(tip.Header.Height)
+		t.Assert(herr != nil || bytes.Equal(h.ID, tip.Header.ID), "a header fetched at the tip's height is that block's header or missing, never another block")
+	}
+	wg.Wait()
+	last := chain.LastBlock()
+	t.Assert(last != nil && bytes.Equal(last.Header.ID, b2.Header.ID), "after append + removal the tip is block 2 again")
+	t.Reach("end")
+}
